@@ -781,6 +781,14 @@ static ASMJIT_INLINE void rw_zero_extend_gp(OpRWInfo& op_rw_info, const Gp& reg,
     op_rw_info.add_op_flags(OpRWFlags::kZExt);
     op_rw_info.set_extend_byte_mask(~op_rw_info.write_byte_mask() & 0xFFu);
   }
+  else if (reg.size() == 4 && native_gp_size == 4) {
+    // 32-bit mode: a result narrower than the register (pextrw eax, xmm0, 0; movmskps; kmovw) still zeroes the rest of it.
+    uint64_t msk = ~op_rw_info.write_byte_mask() & 0x0Fu;
+    if (msk) {
+      op_rw_info.add_op_flags(OpRWFlags::kZExt);
+      op_rw_info.set_extend_byte_mask(msk);
+    }
+  }
 }
 
 static ASMJIT_INLINE void rw_zero_extend_avx_vec(OpRWInfo& op_rw_info, const Vec& reg) noexcept {
@@ -1109,7 +1117,8 @@ Error query_rw_info(Arch arch, const BaseInst& inst, const Operand_* operands, s
           }
 
           if (o0.is_gp() && o1.is_segment_reg()) {
-            out->_operands[0].reset(W | RegM, native_gp_size);
+            // A 16-bit destination only receives the selector, 32-bit and 64-bit destinations are zero extended to the whole register.
+            out->_operands[0].reset(W | RegM, o0.size() == 2 ? 2u : native_gp_size);
             out->_operands[0].set_rm_size(2);
             out->_operands[1].reset(R, 2);
             return Error::kOk;
